@@ -21,7 +21,7 @@ pub fn def() -> CheckDef {
 fn meta(_ctx: &Ctx) -> Meta {
     Meta {
         level: "exploration",
-        rule: "every extraction runs in a fresh jail J with the target at J/l1/l2/l3/l4/l5/target and canary files/directories on every level outside the target; a full recursive snapshot (type, mode, size, mtime ns, content hash, link target) of J minus the target is taken before and after and must be identical. Positive: seeded built packages (nested directories, explicit directory entries, symlinks, all permission bits incl. setuid/setgid/sticky) must produce every regular file / directory / symlink at target+path with the archived content, permission bits and link target. Hostile (hand-encoded header + cpio; all absolute paths and symlink targets point into J, '..' chains at most 5 long): '..' in directory or base names, base names with '/', absolute base names, empty names, duplicate paths, a symlink followed by a file of the same path or below it (absolute and relative targets, to a file and to a directory), directory then symlink of the same name, FIFO/char/block/socket/zero type bits, names disagreeing between cpio and header; result must be Ok or Err, never a panic. Release and verifdbg. Unprivileged phase: built packages (incl. read-only directory entries with children) are written to a file and extracted by a child process running as uid 65534; same oracles. distinct_nontrivial = distinct extractions whose jail snapshots were compared".into(),
+        rule: "every extraction runs in a fresh jail J with the target at J/l1/l2/l3/l4/l5/target and canary files/directories on every level outside the target; a full recursive snapshot (type, mode, size, mtime ns, content hash, link target) of J minus the target is taken before and after and must be identical. Positive: seeded built packages (nested directories, explicit directory entries, symlinks, all permission bits incl. setuid/setgid/sticky) must produce every regular file / directory / symlink at target+path with the archived content, permission bits and link target. Hostile (hand-encoded header + cpio; all absolute paths and symlink targets point into J, '..' chains at most 5 long): '..' in directory or base names, base names with '/', absolute base names, empty names, duplicate paths, a symlink followed by a file of the same path or below it (absolute and relative targets, to a file and to a directory), directory then symlink of the same name, FIFO/char/block/socket/zero type bits, names disagreeing between cpio and header; result must be Ok or Err, never a panic. Release and verifdbg. Unprivileged phase: built packages (incl. read-only directory entries with children) are written to a file and extracted by a child process running as uid 65534 under umask 022 / 077 / 000 / 027; same oracles. distinct_nontrivial = distinct extractions whose jail snapshots were compared".into(),
         assumptions: vec!["hostile inputs are constructed so that an escaping write lands inside the jail".into()],
         floor_distinct: 100,
     }
@@ -438,7 +438,7 @@ fn unprivileged_phase(ctx: &Ctx, rep: &Report, base: &Path) {
         }
         let jail = Jail { before: snapshot(&jail.root, &jail.target), ..jail };
         rep.eval(1);
-        let out = std::process::Command::new(&exe).arg("extract-as").arg("65534").arg(&pkgfile).arg(&jail.target).output();
+        let out = std::process::Command::new(&exe).arg("extract-as").arg("65534").arg(&pkgfile).arg(&jail.target).arg(["022", "077", "000", "027"][(i % 4) as usize]).output();
         let line = out.as_ref().map(|o| String::from_utf8_lossy(&o.stdout).lines().last().unwrap_or("").to_string()).unwrap_or_default();
         let diff = jail_diff(&jail);
         rep.nontrivial(crate::checks::c06::cfg_hash(&cfg) ^ 0x5a5a);
@@ -471,7 +471,7 @@ pub fn extract_as_main(args: &[String]) -> i32 {
             println!("SETUID-FAILED");
             return 3;
         }
-        libc::umask(0o022);
+        libc::umask(args.get(3).and_then(|u| u32::from_str_radix(u, 8).ok()).unwrap_or(0o022) as libc::mode_t);
     }
     let r = guard(|| rpm::Package::open(&args[1]).and_then(|p| p.extract(&args[2])));
     match r {
